@@ -3,7 +3,6 @@ use std::convert::TryFrom;
 use std::hash::{Hasher, Hash};
 use std::collections::{BTreeSet};
 use std::iter::FromIterator;
-use std::ops::Add;
 
 use regex::Regex;
 
@@ -88,10 +87,17 @@ impl<'a, T: ColumnProvider> ExpressionExecutionEngine<'a, T> {
 
                 match (&left_value, &right_value) {
                     (Value::Timestamp(left), Value::Interval(right)) => {
-                        return Ok(Value::Timestamp(left.add(right.clone())));
+                        return match operator {
+                            ArithmeticOperator::Add => left.checked_add_signed(right.clone()),
+                            ArithmeticOperator::Subtract => left.checked_sub_signed(right.clone()),
+                            _ => None
+                        }.map(|result| Value::Timestamp(result)).ok_or(EvaluationError::UndefinedOperation);
                     }
                     (Value::Interval(left), Value::Timestamp(right)) => {
-                        return Ok(Value::Timestamp(right.add(left.clone())));
+                        return match operator {
+                            ArithmeticOperator::Add => right.checked_add_signed(left.clone()),
+                            _ => None
+                        }.map(|result| Value::Timestamp(result)).ok_or(EvaluationError::UndefinedOperation);
                     }
                     _ => {}
                 }
